@@ -192,6 +192,18 @@ def expand(p, alphabet):
         q.lines.append("x%d = executable('x%d', files=[%s], pch=p%d)" % (i, i, f, i))
         q.values.append(Value('x%d' % i, EXE, 'x%d' % i, i))
         out.append(q)
+    if 'exepchgen' in alphabet:
+        # a precompiled header that includes a GENERATED header reached through includes=
+        q = new('exepchgen')
+        q.files['dg%d.in' % i] = 'data %d\n' % i
+        q.files['pg%d.h' % i] = '#include "gh%d.h"\n' % i
+        f = repr(src(q, i, header=False))
+        q.lines.append("gh%d = build_step('gh%d.h', cmd=['gen', build_step.output, '--', build_step.input], "
+                       "files=['dg%d.in'])" % (i, i, i))
+        q.lines.append("xg%d = executable('xg%d', files=[%s], includes=[gh%d], pch='pg%d.h')" % (i, i, f, i, i))
+        q.values.append(Value('xg%d' % i, EXE, 'xg%d' % i, i))
+        q.declared_deps.append(('pg%d.h.gch' % i, 'gh%d.h' % i))
+        out.append(q)
     if 'stepenvline' in alphabet:
         # a step whose command is ONE shell line of two simple commands, with environment=
         q = new('stepenvline')
@@ -264,7 +276,7 @@ def expand(p, alphabet):
     return out
 
 
-FULL = ['obj', 'exe', 'slib', 'shlib', 'vshlib', 'exepch', 'exeopts', 'stepenvline', 'step1', 'step2', 'stepao', 'step2ao', 'stepcmd', 'copy', 'alias',
+FULL = ['obj', 'exe', 'slib', 'shlib', 'vshlib', 'exepch', 'exepchgen', 'exeopts', 'stepenvline', 'step1', 'step2', 'stepao', 'step2ao', 'stepcmd', 'copy', 'alias',
         'command', 'test', 'testarg', 'default', 'install']
 
 
